@@ -57,7 +57,10 @@ def cases(draw, tier):
         if len(right['inputs']) == n and len(right['outputs']) == m:
             mode = 'independent'
     names = draw(st.sampled_from([None, None, ('L', 'R'), ('a_b', 'circuit1'), ('circuit2', 'circuit1'), (None, 'R'), ('L', None)]))
-    return {'left': left, 'right': right, 'mode': mode, 'names': names,
+    # what the process did before: nothing, or it obtained the library's pairwise-xor gadget of the same width for its own
+    # use and rebuilt it (callers own what generate_* returns)
+    prelude = draw(st.sampled_from([None, None, None, 'own_pairwise_xor']))
+    return {'left': left, 'right': right, 'mode': mode, 'names': names, 'prelude': prelude,
             'lroute': draw(gen.routes(left)), 'rroute': draw(gen.routes(right))}
 
 
@@ -73,6 +76,12 @@ def check_miter(case):
     if case['names']:
         kw = {k: v for k, v in (('left_name', case['names'][0]), ('right_name', case['names'][1])) if v is not None}
     n, m = len(L['inputs']), len(L['outputs'])
+    if case.get('prelude') == 'own_pairwise_xor' and m >= 1:
+        from cirbo.synthesis.generation.generation import generate_pairwise_xor
+
+        own = generate_pairwise_xor(m)
+        own.emplace_gate('all_equal', core.gate.NOR if m > 1 else core.gate.NOT, tuple(own.outputs))
+        own.set_outputs(['all_equal'])
     if len(R['inputs']) != n or len(R['outputs']) != m:
         try:
             build_miter(cl, cr, **kw)
@@ -111,6 +120,8 @@ def check_miter(case):
     if pr:
         raise Violation('wellformed', '; '.join(pr[:3]))
     cls = {'mode:' + case['mode'], f'm={min(m, 3)}{"+" if m > 3 else ""}'}
+    if case.get('prelude'):
+        cls.add('prelude:' + case['prelude'])
     if set(g[0] for g in L['gates']) & set(g[0] for g in R['gates']):
         cls.add('shared_labels')
     typl = {g[0]: g[1] for g in L['gates']}
